@@ -119,6 +119,7 @@ class ManagedBSE:
         return 'C'
 
     def apply(s, st, a):
+        pre = st
         st = st.clone()
         st.log = st.log + (('act',) + tuple(a),)
         st.gset('last', None); st.gset('seen', ())
@@ -150,7 +151,7 @@ class ManagedBSE:
             for th2 in o.threads.values():
                 if not th2.stack: th2.panicking = False; th2.result = None
             last = o.gget('last') or {}
-            o.gset('pending_vio', tuple(s.digest(st, last.get('op', a), o)))
+            o.gset('pending_vio', tuple(s.digest(pre, last.get('op', a), o)))
         return outs
 
     def set_op(s, st, t, a, phase, **data):
